@@ -217,6 +217,127 @@ func cacheBlocksWith(fn *ast.FuncDecl, recv, name, arg0 string) int {
 	return n
 }
 
+// cacheDeferCloseAfter: among the direct statements of fn's body, `f, err := os.<open>(...)` is
+// followed by `if err != nil { ... }` and then `defer f.Close()`.
+func cacheDeferCloseAfter(fn *ast.FuncDecl, open string) bool {
+	l := fn.Body.List
+	for i, st := range l {
+		as, ok := st.(*ast.AssignStmt)
+		if !ok || len(as.Rhs) != 1 || len(as.Lhs) != 2 {
+			continue
+		}
+		c, ok := as.Rhs[0].(*ast.CallExpr)
+		if !ok {
+			continue
+		}
+		se, ok := c.Fun.(*ast.SelectorExpr)
+		if !ok || se.Sel.Name != open {
+			continue
+		}
+		if x, ok := se.X.(*ast.Ident); !ok || x.Name != "os" {
+			continue
+		}
+		v, ok := as.Lhs[0].(*ast.Ident)
+		if !ok || i+2 >= len(l) {
+			return false
+		}
+		if _, ok := l[i+1].(*ast.IfStmt); !ok {
+			return false
+		}
+		d, ok := l[i+2].(*ast.DeferStmt)
+		if !ok {
+			return false
+		}
+		ds, ok := d.Call.Fun.(*ast.SelectorExpr)
+		if !ok || ds.Sel.Name != "Close" {
+			return false
+		}
+		dx, ok := ds.X.(*ast.Ident)
+		return ok && dx.Name == v.Name
+	}
+	return false
+}
+
+// cacheCloseFollowsCopy: some block of fn has the statement `io.Copy(h, f)` directly followed by `f.Close()`.
+func cacheCloseFollowsCopy(fn *ast.FuncDecl) bool {
+	isCall := func(st ast.Stmt, recv, name string) bool {
+		es, ok := st.(*ast.ExprStmt)
+		if !ok {
+			return false
+		}
+		c, ok := es.X.(*ast.CallExpr)
+		if !ok {
+			return false
+		}
+		se, ok := c.Fun.(*ast.SelectorExpr)
+		if !ok || se.Sel.Name != name {
+			return false
+		}
+		x, ok := se.X.(*ast.Ident)
+		return ok && x.Name == recv
+	}
+	n, copies := 0, 0
+	ast.Inspect(fn.Body, func(x ast.Node) bool {
+		b, ok := x.(*ast.BlockStmt)
+		if !ok {
+			return true
+		}
+		for i, st := range b.List {
+			if isCall(st, "io", "Copy") {
+				copies++
+				if i+1 < len(b.List) && isCall(b.List[i+1], "f", "Close") {
+					n++
+				}
+			}
+		}
+		return true
+	})
+	return n == 1 && copies == 1
+}
+
+// cachePutBytesViaPut: the body is `_, _, err := c.Put(id, bytes.NewReader(data)); return err`.
+func cachePutBytesViaPut(fn *ast.FuncDecl) bool {
+	l := fn.Body.List
+	if len(l) != 2 {
+		return false
+	}
+	as, ok := l[0].(*ast.AssignStmt)
+	if !ok || len(as.Rhs) != 1 || len(as.Lhs) != 3 {
+		return false
+	}
+	c, ok := as.Rhs[0].(*ast.CallExpr)
+	if !ok || len(c.Args) != 2 {
+		return false
+	}
+	se, ok := c.Fun.(*ast.SelectorExpr)
+	if !ok || se.Sel.Name != "Put" {
+		return false
+	}
+	if a0, ok := c.Args[0].(*ast.Ident); !ok || a0.Name != "id" {
+		return false
+	}
+	nr, ok := c.Args[1].(*ast.CallExpr)
+	if !ok || len(nr.Args) != 1 {
+		return false
+	}
+	ns, ok := nr.Fun.(*ast.SelectorExpr)
+	if !ok || ns.Sel.Name != "NewReader" {
+		return false
+	}
+	if x, ok := ns.X.(*ast.Ident); !ok || x.Name != "bytes" {
+		return false
+	}
+	if a, ok := nr.Args[0].(*ast.Ident); !ok || a.Name != "data" {
+		return false
+	}
+	r, ok := l[1].(*ast.ReturnStmt)
+	if !ok || len(r.Results) != 1 {
+		return false
+	}
+	e, ok := r.Results[0].(*ast.Ident)
+	return ok && e.Name == "err"
+}
+
 func cacheEmitBool(g *gen, name, comment string, v bool) {
 	fmt.Fprintf(&g.buf, "(* %s *)\nDefinition %s : bool := %v.\n\n", comment, name, v)
 }
@@ -259,6 +380,15 @@ func cacheShape(g *gen) {
 		cacheEmitBool(g, "copy_commit_ok", "cache.copyFile: OpenFile, Seek, io.CopyN(w, file, size-1), file.Read(buf), bytes.Equal(sum, out), f.Write(buf), f.Close in this order (the last byte commits)", ok)
 		cacheEmitBool(g, "copy_truncates_on_failure", "cache.copyFile: five failure exits, each f.Truncate(0) then return", cacheBlocksWith(fn, "f", "Truncate", "0") == 5)
 		cacheEmitBool(g, "copy_removes_on_close_failure", "cache.copyFile: os.Remove(name) then return when the final Close fails", cacheBlocksWith(fn, "os", "Remove", "name") == 1)
+		cacheEmitBool(g, "copy_closes_ok", "cache.copyFile: `defer f.Close()` right after the checked os.OpenFile, and in the already-stored check `f.Close()` right after `io.Copy(h, f)`: every path closes what it opened", cacheDeferCloseAfter(fn, "OpenFile") && cacheCloseFollowsCopy(fn))
+	}
+	if fn := g.funcDecl(dir, "Cache.get"); fn != nil {
+		cacheEmitBool(g, "get_defers_close", "cache.get: `defer f.Close()` right after the checked os.Open", cacheDeferCloseAfter(fn, "Open"))
+	}
+	if fn := g.funcDecl(dir, "Cache.PutBytes"); fn != nil {
+		cacheEmitBool(g, "put_bytes_via_put", "cache.PutBytes is `_, _, err := c.Put(id, bytes.NewReader(data)); return err` and nothing else", cachePutBytesViaPut(fn))
+	} else {
+		g.fail("cache.PutBytes not found")
 	}
 	if fn := g.funcDecl(dir, "Cache.putIndexEntry"); fn != nil {
 		trunc := cacheCallPos(fn, "f", "Truncate")
